@@ -18,8 +18,8 @@
   FLUSHDB/FLUSHALL (2a25c7e) did not mark; a second WATCH replaced the baseline (180a098); watch entries forgot
   their database (3ed7039).  On the current tree every mutating storage function marks (`all_writes_mark`, no
   exception) and the watch list is the prescribed one, so `watch_sound` holds for the tree at full strength
-  (`watch_sound_tree`).  Still open: WATCH of an already expired, not yet removed key aborts although nothing
-  changed (`no_false_abort_fails_expired_at_watch`; switch `watchPurges`, fix proposed as C08_7).
+  (`watch_sound_tree`).  WATCH of an already expired, not yet removed key aborted although nothing changed
+  (`no_false_abort_fails_expired_at_watch`, old switch `watchPurges = false`): fixed by cf01a0f.
 -/
 import FerrousSpec.Proofs.WatchWitness
 namespace Ferrous.C08
@@ -58,11 +58,14 @@ theorem tree_every_mutator_marks :
 /-- flush_db and the sweeper mark what they remove. -/
 theorem tree_flush_and_sweeper_mark : flushMarks = true ∧ marksOf "expiration_cleanup_loop" "key" = true := by decide
 
-/-- The watch list of the current tree: entries are keyed by (database, key) and checked / unregistered there, a
-    second WATCH keeps the first baseline (commits 3ed7039, 180a098).  WATCH does not yet purge an expired stored
-    value (`Q.noPurge`; the open finding); with C08_7 applied the tree is `Q.fixed`.  Both are accepted, so that
-    applying that fix needs no edit here; a regression of the other two switches breaks this theorem. -/
-theorem tree_watch_list : Gen.watchQ = Q.noPurge ∨ Gen.watchQ = Q.fixed := by decide
+/-- The watch list of the current tree is the prescribed one: entries are keyed by (database, key) and checked /
+    unregistered there (3ed7039), a second WATCH keeps the first baseline (180a098), WATCH drops an expired stored
+    value before it registers (cf01a0f).  A regression of any of the three breaks this theorem. -/
+theorem tree_watch_list : Gen.watchQ = Q.fixed := by decide
+
+/-- The translator recognised each of the three shapes in the source (when it does not, `Gen.watchQ` carries
+    pessimistic values so that the dynamic search can still run, and this theorem refuses). -/
+theorem tree_watch_list_recognised : Gen.watchQRecognised = true := by decide
 
 /-- The write paths used by the commands are in the table and mark their key. -/
 theorem tree_marking_functions :
@@ -426,9 +429,9 @@ theorem watch_sound_fails_unwatch_wraps :
     execAfter Q.code hUnwatchWraps 1010 = .array 0 ∧ judged Q.code hUnwatchWraps 1010 = [(.array 0, .mustNil)] ∧
     execAfter Q.noPurge hUnwatchWraps 1010 = .nil := by decide
 
-/-- STILL OPEN on the current tree (`watchPurges = false`): WATCH of a key that is stored but already past its
+/-- old switch `watchPurges = false` (before cf01a0f): WATCH of a key that is stored but already past its
     deadline — nothing happens afterwards, EXEC returns nil although the key was logically absent at WATCH and
-    still is.  With the purge at WATCH time (`Q.fixed`, proposed fix C08_7) EXEC executes. -/
+    still is.  With the purge at WATCH time (`Q.fixed`, the current tree) EXEC executes. -/
 theorem no_false_abort_fails_expired_at_watch :
     execAfter Q.noPurge hExpiredAtWatch 1110 = .nil ∧ judged Q.noPurge hExpiredAtWatch 1110 = [(.nil, .mustRun)] ∧
     execAfter Q.code hExpiredAtWatch 1110 = .nil ∧
